@@ -21,15 +21,15 @@ ASSUMPTIONS = ['domain (stated in the property): halo depth in cells <= raster h
 
 
 def plan(tier, seed):
-    n = 1000 if tier == 'quick' else 16000
+    n = 1400 if tier == 'quick' else 16000
     return [('rand', i) for i in range(n)]
 
 
 def shard_filter(descs, shard, nshards, mode):
     if mode == 'I':
-        sel = [d for i, d in enumerate(descs) if i % 5 != 0]
+        sel = [d for i, d in enumerate(descs) if i % 10 != 0]
     else:
-        sel = [d for i, d in enumerate(descs) if i % 5 == 0]
+        sel = [d for i, d in enumerate(descs) if i % 10 == 0]
     return [d for i, d in enumerate(sel) if i % nshards == shard]
 
 
